@@ -37,7 +37,7 @@ use swc_ecma_ast::{EsVersion, Program, Stmt};
 
 use std::fmt;
 use swc_ecma_parser::{EsSyntax, Syntax};
-use swc_ecma_visit::VisitMutWith;
+use swc_ecma_visit::{VisitMut, VisitMutWith};
 
 const SOURCE_MAP_URL: &str = "# sourceMappingURL=";
 
@@ -394,11 +394,22 @@ pub fn generate_prefix_stmts(csi_methods: &CsiMethods) -> Vec<Stmt> {
         parse_js(&source_file, handler, &compiler)
     });
 
-    if let Ok(Program::Script(script)) = program_result {
+    if let Ok(Program::Script(mut script)) = program_result {
+        // the prologue is not part of the rewritten file: it must not carry positions of another
+        // source, otherwise the emitted source map points outside the input
+        script.body.visit_mut_with(&mut SpanEraser {});
         return script.body;
     }
 
     Vec::new()
+}
+
+struct SpanEraser {}
+
+impl VisitMut for SpanEraser {
+    fn visit_mut_span(&mut self, span: &mut swc_common::Span) {
+        *span = swc_common::DUMMY_SP;
+    }
 }
 
 #[cfg(test)]
